@@ -41,6 +41,9 @@ pub(crate) struct DhtHandler {
     routing_table: Arc<Mutex<RoutingTable>>,
     active_stores: AnnounceStorage,
     bootstrap: TableBootstrap,
+    // Action id of the bootstrap requests. Responses that arrive after the bootstrap stopped waiting
+    // for them end up in `handle_incoming_response`.
+    bootstrap_action_id: ActionID,
 
     next_bootstrap_txs_id: u64,
     bootstrap_txs: HashMap<u64, oneshot::Sender<()>>,
@@ -76,6 +79,7 @@ impl DhtHandler {
         let table_refresh = TableRefresh::new(mid_generator, table.clone());
 
         let mid_generator = aid_generator.generate();
+        let bootstrap_action_id = mid_generator.action_id();
         let bootstrap =
             TableBootstrap::new(socket.clone(), table.clone(), mid_generator, routers, nodes);
 
@@ -94,6 +98,7 @@ impl DhtHandler {
             routing_table: table,
             active_stores: AnnounceStorage::new(),
             bootstrap,
+            bootstrap_action_id,
             next_bootstrap_txs_id: 0,
             bootstrap_txs: HashMap::new(),
             refresh: table_refresh,
@@ -462,7 +467,11 @@ impl DhtHandler {
                 ActionStatus::Ongoing => (),
                 ActionStatus::Completed => self.handle_lookup_completed(trans_id).await,
             }
-        } else if self.refresh.action_id() == trans_id.action_id() {
+        } else if self.refresh.action_id() == trans_id.action_id()
+            || self.bootstrap_action_id == trans_id.action_id()
+        {
+            // Response to a refresh request or a late response to a bootstrap request (the bootstrap
+            // waits only briefly for each node, a slower node has still answered us).
             self.routing_table.lock().unwrap().add_nodes(node, nodes);
         } else {
             return Err(WorkerError::UnsolicitedResponse);
